@@ -175,8 +175,15 @@ def _kcoreness(prog, rep):
         m = Matcher(prog, f)
         pm = ParentMap(f.node)
         stmts = _stmts(f.node)
-        lp = [s for s in f.node.body if isinstance(s, ast.For)]
+        lp = [s for s in stmts if isinstance(s, ast.For) and not pm.loops(s)]
         ok = len(lp) == 1 and m.match(lp[0].iter, 'range(N)') is not None
+        if ok:
+            # the loop may sit behind a guard only if the guard skips it exactly when there is nothing to loop over (N == 0)
+            for t, pol, knd, owner in pm.guards(lp[0]):
+                empty = norm(t) in ('N == 0', 'not N', 'N < 1', 'N <= 0')
+                nonempty = norm(t) in ('N', '0 < N', 'N != 0', '1 <= N')
+                if not ((empty and not pol) or (nonempty and pol)):
+                    ok = False
         rep.ob('K.k-ascends-over-all-values', f, lp[0].iter if lp else 'for k in range(N)', ok, 'k must run upwards over 0..N-1 so that the largest k containing a node is assigned last', line=f.node.lineno)
         if not ok:
             continue
